@@ -176,7 +176,15 @@ def _norm_harness(shape, tier):
                 for k in range(K):
                     M[i, j, k] = vc.real(f"M[{i},{j},{k}]", -5, 5)
         orig = M.copy()
-        rw = vc.new(RW + "SimpleSummationReward", _metrics=[None] * K)
+        # a reward built by the REAL constructor from metric objects, several of which share one metric type (e.g. two covariance-trace metrics)
+        from resonaate.tasking.metrics.metric_base import Metric
+        kinds = ["information", "information", "stability"]
+        mets = [type(f"Met{k}", (Metric,), {"METRIC_TYPE": kinds[k % 3], "calculate": lambda self, e, s: 0.0})() for k in range(K)]
+        if vc.symbolic:
+            rw = vc.new(RW + "SimpleSummationReward")
+            vc.fn(RB + "Reward.__init__")(rw, mets)
+        else:
+            rw = vc.fn(RW + "SimpleSummationReward")(mets)
         out = rw.normalizeMetrics(M)
         oks, sc = [], []
         for k in range(K):
@@ -195,6 +203,7 @@ def _norm_harness(shape, tier):
 
 _norm_harness((2, 2, 1), "quick")
 _norm_harness((1, 2, 2), "quick")
+_norm_harness((1, 2, 3), "quick")
 _norm_harness((2, 3, 2), "thorough")
 
 
